@@ -1,7 +1,7 @@
 (** C07 — concurrent requests cause one refresh; no refresh token is presented twice. *)
 From Coq Require Import ZArith NArith Bool List.
 From WW Require Import Gen.Params Base.AMap Model.SessionTime Model.Machine Model.Entry
-     Proofs.MachineP Proofs.MachineRefute.
+     Proofs.MachineP Proofs.MachineRefute Proofs.MachineRtP.
 Import ListNotations.
 Open Scope Z_scope.
 
@@ -35,3 +35,66 @@ Example c07_memory_store_fixed :
   w_idp_log (m_w s) = [IdpGrant 1 true] /\
   thread_done s 1 (OForward (Some 2%N) None) /\ thread_done s 2 (OForward (Some 2%N) None).
 Proof. vm_compute. split; [reflexivity|split; eexists; split; reflexivity]. Qed.
+Print Assumptions c07_memory_store_fixed.
+
+(** Each refresh-token value is sent to the provider at most once.
+    Setting: a locking configuration (Redis, or the in-memory store with its per-key lock) with the atomic store
+    update; a rotating provider; fault-free event lists ([ff_event]: every [ERun] has fault [FNone], no [ECancel],
+    no switch to a non-rotating provider) with arbitrary ticks, logins (including re-logins under the same key),
+    logouts, spawns, on any number of threads, in any interleaving.
+    Lease hypothesis ([lease_ok], the property's "as long as a refresh completes within the lock lifetime"): in
+    every prefix state, every thread in a lock-holding phase is a valid holder (live lock entry carrying its token).
+    Conclusion: the provider log contains no rejected presentation, and its refresh-token values are pairwise distinct. *)
+Theorem c07_refresh_token_presented_once : forall c tau es,
+  locking c -> c_upd_atomic c = true -> Forall ff_event es -> lease_ok c (init_state tau) es ->
+  let log := w_idp_log (m_w (run_events c (init_state tau) es)) in
+  (forall rt, ~ In (IdpGrant rt false) log) /\ NoDup (map ev_rt log).
+Proof. exact rt_presented_once. Qed.
+Print Assumptions c07_refresh_token_presented_once.
+
+(** The invariant behind it holds in every state reachable under those hypotheses, from any state satisfying it. *)
+Theorem c07_refresh_token_invariant : forall c s0 es,
+  locking c -> c_upd_atomic c = true -> Forall ff_event es -> rt_inv s0 -> lease_ok c s0 es ->
+  rt_inv (run_events c s0 es).
+Proof. exact rt_inv_run. Qed.
+Print Assumptions c07_refresh_token_invariant.
+
+(** Under the lease hypothesis at most one thread per session key is between its accepted grant and its store
+    update (any event list, faults and cancellation included). *)
+Corollary c07_one_pending_update : forall c tau es t1 t2 th1 th2,
+  locking c -> lease_ok c (init_state tau) es ->
+  let s := run_events c (init_state tau) es in
+  alookup t1 (m_ts s) = Some th1 -> alookup t2 (m_ts s) = Some th2 ->
+  cookie_key (t_cookie th1) = cookie_key (t_cookie th2) ->
+  is_upd (t_phase th1) = true -> is_upd (t_phase th2) = true -> t1 = t2.
+Proof. exact one_pending_update. Qed.
+Print Assumptions c07_one_pending_update.
+
+(** Non-vacuity: two concurrent refreshers of one session; every hypothesis of the theorem holds on the schedule
+    and exactly one presentation is made (in-memory store with its lock, and Redis). *)
+Example c07_presented_once_nonvacuous :
+  let c := cfg_mem true true true in
+  locking c /\ c_upd_atomic c = true /\ Forall ff_event two_refreshers_schedule /\
+  lease_ok c (init_state 3600) two_refreshers_schedule /\
+  w_idp_log (m_w (run_events c (init_state 3600) two_refreshers_schedule)) = [IdpGrant 1 true].
+Proof. exact two_refreshers_nonvacuous. Qed.
+Print Assumptions c07_presented_once_nonvacuous.
+
+Example c07_presented_once_nonvacuous_redis :
+  let c := cfg_redis true true true in
+  locking c /\ c_upd_atomic c = true /\ Forall ff_event two_refreshers_schedule /\
+  lease_ok c (init_state 3600) two_refreshers_schedule /\
+  w_idp_log (m_w (run_events c (init_state 3600) two_refreshers_schedule)) = [IdpGrant 1 true].
+Proof. exact two_refreshers_redis_nonvacuous. Qed.
+Print Assumptions c07_presented_once_nonvacuous_redis.
+
+(** The lease hypothesis is necessary: a refresher that stalls for a whole lock lifetime between its accepted grant
+    and its store update leaves the spent value in the store; the next refresher acquires the expired lock and
+    presents the same value again (fault-free schedule, current code). *)
+Theorem c07_lease_hypothesis_needed :
+  let c := cfg_redis true true true in
+  locking c /\ c_upd_atomic c = true /\ Forall ff_event stalled_refresher_schedule /\
+  ~ lease_ok c (init_state 3600) stalled_refresher_schedule /\
+  w_idp_log (m_w (run_events c (init_state 3600) stalled_refresher_schedule)) = [IdpGrant 1 false; IdpGrant 1 true].
+Proof. exact stalled_refresher_double_presentation. Qed.
+Print Assumptions c07_lease_hypothesis_needed.
